@@ -130,18 +130,22 @@ Print Assumptions c06_spill_block_sound_partial.
    (inserted instructions take no step of P) such that P is at the corresponding point, every register
    that is neither spilled nor fresh is equal, every certified fact holds (in particular: the slot of a
    live spilled register holds its value, or the fresh temporary does while a store is pending), and at
-   every original instruction xp reads exactly the values P reads.  Outside the model: that the target's
+   every original instruction xp reads exactly the values P reads.  Inserted spill code may overwrite
+   physical scratch registers (AVR: Z for the slot address): these and their aliases are tracked as
+   [dirty] (certificate, checked) and excluded from the equality until both programs rewrite them; an
+   original instruction must not read a dirty register.  Outside the model: that the target's
    generated load/store instructions implement XLoad/XStore of that slot (and their address operands). *)
-Theorem c06_check_spill_sound : forall physl special xp marks P facts,
-  check_spill physl special xp marks P facts = true ->
-  forall (al0 : reg -> reg -> bool) (S : semantics) (junk : nat -> junk_t) rf' mem rf,
-  spill_sim (keepf special) (facts_at facts 0) rf' mem rf ->
+Theorem c06_check_spill_sound : forall physl special al0 xp marks P facts dirty,
+  check_spill physl special al0 xp marks P facts dirty = true ->
+  forall (S : semantics) (junk : nat -> junk_t) rf' mem rf,
+  spill_sim (kclean special (dirty_at dirty 0)) (facts_at facts 0) rf' mem rf ->
   forall n, exists m, (m <= n)%nat /\
     let al := src_alias (isphys physl) al0 in
     let xs := xrun al junk S xp n (0%nat, rf', mem) in
     let ps := run al (reindex_junkb junk marks) (reindex_semb S marks) (map Some P) m (0%nat, rf) in
     fst ps = cntb marks (fst (fst xs)) /\
-    spill_sim (keepf special) (facts_at facts (fst (fst xs))) (snd (fst xs)) (snd xs) (snd ps) /\
+    spill_sim (kclean special (dirty_at dirty (fst (fst xs)))) (facts_at facts (fst (fst xs)))
+              (snd (fst xs)) (snd xs) (snd ps) /\
     (forall i', nth_error xp (fst (fst xs)) = Some (XI i') ->
                 nth (fst (fst xs)) marks false = false ->
                 reads (map Some P) ps = Some (map (snd (fst xs)) (i_uses i'))).
@@ -176,18 +180,22 @@ Print Assumptions c06_interference_complete.
 
 (* non-vacuity of the spill checker: t=1000 spilled to slot 0; "1001 <- load; use 1001; def 1002; store" *)
 Example c06_spill_nonvacuous :
-  check_spill [5] [1000; 1001; 1002]
-    [XLoad 1001 0; XI (mkInstr [1001; 5] [1002] [] false []); XStore 0 1002;
-     XI (mkInstr [] [] [] false [0%nat])]
-    [true; false; true; false]
-    [mkInstr [1000; 5] [1000] [] false []; mkInstr [] [] [] false [0%nat]]
-    [[(LSlot 0, 1000)]; [(LReg 1001, 1000); (LSlot 0, 1000)]; [(LReg 1002, 1000)]; [(LSlot 0, 1000)]] = true
-  /\ check_spill [5] [1000; 1001; 1002]
-    [XLoad 1001 0; XI (mkInstr [1001; 5] [1002] [] false []);
-     XI (mkInstr [] [] [] false [0%nat])]
-    [true; false; false]
-    [mkInstr [1000; 5] [1000] [] false []; mkInstr [] [] [] false [0%nat]]
-    [[(LSlot 0, 1000)]; [(LReg 1001, 1000); (LSlot 0, 1000)]; [(LSlot 0, 1000)]] = false.
+  check_spill [5; 6; 7] [1000; 1001; 1002] (alias_of [(6, [7]); (7, [6])])
+    [XI (mkInstr [5] [6] [] false []); XLoad 1001 0; XI (mkInstr [1001; 5] [1002] [] false []);
+     XStore 0 1002; XI (mkInstr [] [6] [] false []); XI (mkInstr [7] [] [] false [0%nat])]
+    [true; true; false; true; false; false]
+    [mkInstr [1000; 5] [1000] [] false []; mkInstr [] [6] [] false []; mkInstr [7] [] [] false [0%nat]]
+    [[(LSlot 0, 1000)]; [(LSlot 0, 1000)]; [(LReg 1001, 1000); (LSlot 0, 1000)]; [(LReg 1002, 1000)];
+     [(LSlot 0, 1000)]; [(LSlot 0, 1000)]]
+    [[7]; [6; 7]; [6; 7]; [6; 7]; [6; 7]; [7]] = false       (* 7 aliases the scratch register 6 and is read dirty *)
+  /\ check_spill [5; 6; 7] [1000; 1001; 1002] (alias_of [(6, [7]); (7, [6])])
+    [XI (mkInstr [5] [6] [] false []); XLoad 1001 0; XI (mkInstr [1001; 5] [1002] [] false []);
+     XStore 0 1002; XI (mkInstr [] [6] [] false []); XI (mkInstr [6] [] [] false [0%nat])]
+    [true; true; false; true; false; false]
+    [mkInstr [1000; 5] [1000] [] false []; mkInstr [] [6] [] false []; mkInstr [6] [] [] false [0%nat]]
+    [[(LSlot 0, 1000)]; [(LSlot 0, 1000)]; [(LReg 1001, 1000); (LSlot 0, 1000)]; [(LReg 1002, 1000)];
+     [(LSlot 0, 1000)]; [(LSlot 0, 1000)]]
+    [[7]; [6; 7]; [6; 7]; [6; 7]; [6; 7]; [7]] = true.
 Proof. split; vm_compute; reflexivity. Qed.
 
 (* non-vacuity: a frame with a coalesced copy, an aliasing pair (0 ~ 1) and a loop is accepted;
